@@ -555,12 +555,13 @@ class SQLParser:
         function_name_expression = cls._parse_function_name_expression(scanner)
         function_name_upper = function_name_expression.function_name.upper()
 
-        if function_name_upper == "CAST":
-            return cls._parse_cast_function_expression(scanner, sql_type)
-        if function_name_upper == "EXTRACT":
-            return cls._parse_extract_function_expression(scanner, sql_type)
-        if function_name_upper == "IF":
-            return cls._parse_if_function_expression(scanner, sql_type)
+        if function_name_expression.schema_name is None:  # 带有模式名的函数不是内置的 CAST / EXTRACT / IF 函数，不能丢弃其模式名
+            if function_name_upper == "CAST":
+                return cls._parse_cast_function_expression(scanner, sql_type)
+            if function_name_upper == "EXTRACT":
+                return cls._parse_extract_function_expression(scanner, sql_type)
+            if function_name_upper == "IF":
+                return cls._parse_if_function_expression(scanner, sql_type)
 
         parenthesis_scanner = scanner.pop_as_children_scanner()
         if function_name_upper == "SUBSTRING":
